@@ -14,6 +14,7 @@ with a from-scratch curve and SHA-512, for message lengths covering both SHA-512
 law of filippo.io/edwards25519 and SHA-512 are the hypothesis `Lawful lib`.
 -/
 import Iota.Proofs.Ed
+import Iota.Proofs.Ed.Witness2
 
 namespace Iota.Props.C07
 open Iota.Proofs.Ed
@@ -62,5 +63,29 @@ theorem deterministic (sk msg : Bytes) (a b : Bytes) (ha : sign lib sk msg = som
 
 /-! ### non-vacuity -/
 example : ∃ (G : Type) (_ : AddCommGroup G) (lib : EdLib G), Lawful lib ∧ Cofactor lib := lawful_witness
+
+/-- the hypotheses are not only jointly satisfiable: there is a lawful library with a NON-constant hash on which
+try-and-increment succeeds for every input and, for every 32-byte seed, alpha and message, key generation, `Prove`,
+`Verify` (accepting, with the proof's hash), `ProofToHash`, the proof codec and Ed25519 sign-then-verify all go through
+— so the hypotheses of `complete`, `verify_iff`, `hash_routes_agree`, `unique_partial` (with x the secret scalar) and
+of C07's `sign_then_verify` are met by actual runs. -/
+theorem hypotheses_met_by_runs :
+    ∃ (G : Type) (_ : AddCommGroup G) (lib : EdLib G),
+      Lawful lib ∧ Cofactor lib ∧ OrderExact lib ∧ EncodeCanonical lib ∧ EncodeDecode lib ∧
+      (∃ m m', lib.sha512 m ≠ lib.sha512 m') ∧
+      (∀ salt alpha, ∃ H, Iota.Vrf.encodeToCurve lib salt alpha = some H) ∧
+      (∀ seed alpha : Bytes, seed.length = 32 →
+        ∃ sk H D, Iota.Ed25519.newKeyFromSeed lib seed = some sk ∧ (sk.drop 32).length = 32 ∧
+          Iota.Vrf.encodeToCurve lib (sk.drop 32) alpha = some H ∧
+          Iota.Vrf.prove lib sk alpha = some D ∧
+          Iota.Vrf.verify lib (sk.drop 32) alpha (D.bytes lib) = some (true, D.hash lib) ∧
+          Iota.Vrf.proofToHash lib (D.bytes lib) = some (D.hash lib) ∧
+          Iota.Vrf.Proof.setBytes lib (D.bytes lib) = some D ∧
+          (8 : ℕ) • (D.gamma - secretScalar lib seed • H) = 0) ∧
+      (∀ seed msg : Bytes, seed.length = 32 →
+        ∃ sk sig, Iota.Ed25519.newKeyFromSeed lib seed = some sk ∧ sk.length = 64 ∧
+          Iota.Ed25519.sign lib sk msg = some sig ∧ sig.length = 64 ∧
+          Iota.Ed25519.verify lib (sk.drop 32) msg sig = some true) :=
+  lawful_witness_vrf_runs
 
 end Iota.Props.C07
